@@ -110,7 +110,13 @@ pub fn cli(args: &[String]) -> i32 {
         } else {
             // sweep: a sampled (automaton, content) with every truncation point, every method,
             // three canonical schedules
+            // a cheap base: every sweep scenario rebuilds the automaton
             let mut base = stream::generate(rs);
+            let mut salt = 1u64;
+            while (base.spec.patterns.len() > 2000 || base.spec.patterns.iter().any(|p| p.len() > 2000)) && salt < 8 {
+                base = stream::generate(rs ^ (salt << 32));
+                salt += 1;
+            }
             base.streams.truncate(1);
             if base.streams[0].len() > 64 {
                 let cut = crate::gen::boundaries(base.spec.variant, &base.streams[0])
@@ -121,6 +127,7 @@ pub fn cli(args: &[String]) -> i32 {
                 base.streams[0].truncate(cut);
             }
             for sc in stream::sweep_scenarios(&base) {
+                batch::heartbeat();
                 if account(l, k, rs, &sc, true) {
                     return true;
                 }
